@@ -16,7 +16,6 @@ PYTHONPATH="$W/src" /venv/bin/python -W ignore "$D/demo.py" >/tmp/se_demo_clean.
 if ! git apply "$D/patch.diff"; then echo "PATCH DOES NOT APPLY"; exit 3; fi
 PYTHONPATH="$W/src" /venv/bin/python -W ignore "$D/demo.py" >/tmp/se_demo_mut.$$ 2>&1; demo_mut=$?
 base=$(/verif/tools/baseline.sh "$W" 2>&1 | grep -E "passed|failed" | tail -1)
-rm -f /tmp/baseline.*
 caught=""; missed=""
 cd /verif
 for c in $CHECKS; do
